@@ -3,6 +3,7 @@
 package server
 
 import (
+	"time"
 	"os"
 	"sync"
 	"syscall"
@@ -49,3 +50,27 @@ func verifCrashPoint(name string) {
 
 // VerifCrashPoint is the entry for instrumented copies in other packages (compaction).
 func VerifCrashPoint(name string) { verifCrashPoint(name) }
+
+// VerifLock / VerifUnlock take a dataset's write lock from the harness (forced schedules, C05).
+func (ds *Dataset) VerifLock()   { ds.WriteLock.Lock() }
+func (ds *Dataset) VerifUnlock() { ds.WriteLock.Unlock() }
+
+// VerifStoreHoldingLock is what a writer that already holds the dataset's write lock does (the body of
+// StoreEntities without the locking): draw the commit time, fill the transaction, commit ids, commit data.
+func (ds *Dataset) VerifStoreHoldingLock(entities []*Entity) error {
+	time.Sleep(time.Nanosecond)
+	txnTime := time.Now().UnixNano()
+	txn := ds.store.database.NewTransaction(true)
+	defer txn.Discard()
+	newitems, err := ds.StoreEntitiesWithTransaction(entities, txnTime, txn)
+	if err != nil {
+		return err
+	}
+	if err = ds.store.commitIDTxn(); err != nil {
+		return err
+	}
+	if err = txn.Commit(); err != nil {
+		return err
+	}
+	return ds.updateDataset(newitems, entities)
+}
